@@ -36,6 +36,7 @@ type SigBytes struct{ atom *Atom }
 type bufSeg struct {
 	lit  string
 	tree JVal
+	str  *StrVal // symbolic text (the buffer used as a string builder)
 }
 
 type bufBytes struct{ segs []bufSeg }
@@ -425,6 +426,9 @@ func (e *Engine) parseSegs(segs []bufSeg) (JVal, bool) {
 			norm = append(norm, sg)
 			continue
 		}
+		if sg.str != nil {
+			unsupported("symbolic text written into a buffer that is read as JSON")
+		}
 		for _, r := range sg.lit {
 			if r == ' ' || r == '\n' || r == '\t' {
 				continue
@@ -458,6 +462,22 @@ func (e *Engine) parseSegs(segs []bufSeg) (JVal, bool) {
 		i += 3
 	}
 	return jo, true
+}
+
+// segsText: the buffer's content as text when nothing but text was written.
+func segsText(segs []bufSeg) (StrVal, bool) {
+	out := StrVal{}
+	for _, sg := range segs {
+		switch {
+		case sg.tree != nil:
+			return StrVal{}, false
+		case sg.str != nil:
+			out.bytes = append(out.bytes, sg.str.bytes...)
+		default:
+			out.bytes = append(out.bytes, mkStr(sg.lit).bytes...)
+		}
+	}
+	return out, true
 }
 
 func segLits(segs []bufSeg) string {
@@ -509,25 +529,95 @@ func (e *Engine) jsonIntrinsic(fn *ssa.Function, full string, args []Value) (Val
 		// number spelling are canonicalised) and injective on it.
 		return TupleVal{JBytes{e.bytesToJ(args[0])}, IfaceVal{}}, true
 	case "bytes.Equal":
+		if a, ok := args[0].(SliceVal); ok {
+			if b, ok := args[1].(SliceVal); ok { // plain bytes
+				if a.len != b.len {
+					return tFalse, true
+				}
+				r := tTrue
+				ae, be := sliceElems(a), sliceElems(b)
+				for i := range ae {
+					r = tAnd(r, tEq(ae[i].(*Term), be[i].(*Term)))
+				}
+				return r, true
+			}
+		}
 		return jEq(e.bytesToJ(args[0]), e.bytesToJ(args[1])), true
-	case "(*bytes.Buffer).WriteRune":
+	case "(*bytes.Buffer).WriteRune", "(*bytes.Buffer).WriteByte":
 		p := args[0].(PtrVal)
-		e.bufs[p.slot] = append(e.bufs[p.slot], bufSeg{lit: string(rune(args[1].(*Term).iv))})
+		c := args[1].(*Term)
+		if c.konst {
+			e.bufs[p.slot] = append(e.bufs[p.slot], bufSeg{lit: string(rune(c.iv))})
+		} else {
+			if w, ok := e.bitWidth(c); !ok || w > 8 {
+				unsupported("Buffer.WriteRune of a symbolic rune that may not be a single byte")
+			}
+			e.bufs[p.slot] = append(e.bufs[p.slot], bufSeg{str: &StrVal{bytes: []*Term{c}}})
+		}
+		if full == "(*bytes.Buffer).WriteByte" {
+			return IfaceVal{}, true
+		}
 		return TupleVal{mkInt(1), IfaceVal{}}, true
-	case "(*bytes.Buffer).WriteByte":
-		p := args[0].(PtrVal)
-		e.bufs[p.slot] = append(e.bufs[p.slot], bufSeg{lit: string(rune(args[1].(*Term).iv))})
-		return IfaceVal{}, true
 	case "(*bytes.Buffer).WriteString":
 		p := args[0].(PtrVal)
-		e.bufs[p.slot] = append(e.bufs[p.slot], bufSeg{lit: e.mustStr(args[1], "Buffer.WriteString")})
-		return TupleVal{mkInt(1), IfaceVal{}}, true
+		sv := args[1].(StrVal)
+		if c, ok := concreteStr(sv); ok {
+			e.bufs[p.slot] = append(e.bufs[p.slot], bufSeg{lit: c})
+		} else if sv.atom != nil && sv.atom.kind == "json" {
+			e.bufs[p.slot] = append(e.bufs[p.slot], bufSeg{tree: sv.atom.tree})
+		} else if sv.atom != nil {
+			unsupported("Buffer.WriteString of an opaque string")
+		} else {
+			e.bufs[p.slot] = append(e.bufs[p.slot], bufSeg{str: &sv})
+		}
+		return TupleVal{mkInt(int64(len(sv.bytes))), IfaceVal{}}, true
+	case "(*bytes.Buffer).String":
+		p := args[0].(PtrVal)
+		if sv, ok := segsText(e.bufs[p.slot]); ok {
+			return sv, true
+		}
+		return StrVal{atom: &Atom{kind: "json", tree: e.bytesToJ(bufBytes{segs: e.bufs[p.slot]})}}, true
+	case "(*bytes.Buffer).Len":
+		p := args[0].(PtrVal)
+		sv, ok := segsText(e.bufs[p.slot])
+		if !ok {
+			unsupported("Buffer.Len of a buffer holding a JSON value")
+		}
+		return mkInt(int64(len(sv.bytes))), true
+	case "(*bytes.Buffer).Reset":
+		delete(e.bufs, args[0].(PtrVal).slot)
+		return nil, true
+	case "(*bytes.Buffer).Grow":
+		return nil, true
 	case "(*bytes.Buffer).Write":
 		p := args[0].(PtrVal)
+		if sl, ok := args[1].(SliceVal); ok { // plain bytes: text
+			sv := StrVal{}
+			for _, x := range sliceElems(sl) {
+				sv.bytes = append(sv.bytes, x.(*Term))
+			}
+			if c, ok := concreteStr(sv); ok {
+				e.bufs[p.slot] = append(e.bufs[p.slot], bufSeg{lit: c})
+			} else {
+				e.bufs[p.slot] = append(e.bufs[p.slot], bufSeg{str: &sv})
+			}
+			return TupleVal{mkInt(int64(sl.len)), IfaceVal{}}, true
+		}
 		e.bufs[p.slot] = append(e.bufs[p.slot], bufSeg{tree: e.bytesToJ(args[1])})
 		return TupleVal{mkInt(1), IfaceVal{}}, true
 	case "(*bytes.Buffer).Bytes":
 		p := args[0].(PtrVal)
+		hasStr := false
+		for _, sg := range e.bufs[p.slot] {
+			hasStr = hasStr || sg.str != nil
+		}
+		if sv, ok := segsText(e.bufs[p.slot]); ok && hasStr {
+			elems := make([]Value, len(sv.bytes))
+			for i, b := range sv.bytes {
+				elems[i] = b
+			}
+			return mkSlice(elems), true
+		}
 		return bufBytes{segs: append([]bufSeg{}, e.bufs[p.slot]...)}, true
 	case "github.com/oleiade/reflections.Fields":
 		iv := args[0].(IfaceVal)
